@@ -73,6 +73,7 @@ func (c *vxCountCurve) Evaluate() (int, error) {
 func (c *vxCountCurve) CurrentValue() int { return 100 }
 
 type vxC15World struct {
+	flakyRead int // start: the k-th read of the PWM file fails once (0 = none)
 	twinPwm  string
 	cfg      vxC15Cfg
 	dir      string
@@ -339,6 +340,20 @@ func (w *vxC15World) start(t *testing.T, lockedFor time.Duration) (o vxC15Obs) {
 			ctl := controller.NewFanController(persistenceFor(w.dbPath), fan, control_loop.NewDirectControlLoop(nil), configuration.CurrentConfig.ControllerAdjustmentTickRate)
 			ctx, cancel := context.WithCancel(context.Background())
 			done := make(chan error, 1)
+			if w.flakyRead > 0 && w.dev.Pwm != "" {
+				// one transient read failure of the PWM file: the k-th read after the controller started fails, all others work
+				n, k, pwmPath := 0, w.flakyRead, w.dev.Pwm
+				w.fs.Intercept = func(kind, path string, value int) *env.Result {
+					if kind == "read" && path == pwmPath {
+						n++
+						if n == k {
+							return &env.Result{Val: -1, Err: env.ErrIO}
+						}
+					}
+					return nil
+				}
+				defer func() { w.fs.Intercept = nil }()
+			}
 			go func() { done <- ctl.Run(ctx) }()
 			deadline := time.Now().Add(2 * time.Hour)
 			for cc.Evals < 3 && time.Now().Before(deadline) {
@@ -436,13 +451,24 @@ func vxC15Run(t *testing.T, cfg vxC15Cfg, ops []string, fs *env.FS, scratch stri
 	for i, op := range ops {
 		var o vxC15Obs
 		switch op {
-		case "start", "start-locked":
-			if op == "start" {
-				o = w.start(t, 0)
-			} else {
+		case "start", "start-locked", "start-flaky1", "start-flaky2", "start-flaky3", "start-flaky4":
+			if op == "start-locked" {
 				o = w.start(t, 5*time.Second)
+			} else {
+				w.flakyRead = 0
+				if strings.HasPrefix(op, "start-flaky") {
+					w.flakyRead = int(op[len(op)-1] - '0')
+				}
+				o = w.start(t, 0)
+				w.flakyRead = 0
 			}
 			if o.Err != "" {
+				if strings.HasPrefix(op, "start-flaky") {
+					// the injected read failure hit a step that needs the value (e.g. the analysis of a fan without stored data):
+					// giving up on this start is not a statement about reuse of stored data (what happens then is C09's subject)
+					rep.Count("starts with a failing PWM read that fan2go gave up on", 1)
+					break
+				}
 				bad(i, "C15 start failed", o.Err, o)
 				break
 			}
@@ -492,7 +518,7 @@ func vxC15Run(t *testing.T, cfg vxC15Cfg, ops []string, fs *env.FS, scratch stri
 		if op == "reset" && (hc || hm) {
 			bad(i, "C15 fan reset left stored data behind", fmt.Sprintf("hasCurve=%v hasMap=%v", hc, hm), o)
 		}
-		if (op == "start" || op == "start-locked" || op == "init") && o.Err == "" && ((!hc && !(op == "init" && cfg.NoRpm)) || (!hm && !w.confMap)) {
+		if (strings.HasPrefix(op, "start") || op == "init") && o.Err == "" && ((!hc && !(op == "init" && cfg.NoRpm)) || (!hm && !w.confMap)) {
 			bad(i, "C15 characterisation not stored after "+op, fmt.Sprintf("hasCurve=%v hasMap=%v", hc, hm), o)
 		}
 		if (op == "reset-other" || op == "togglemap") && (hc != m.HasCurve || (m.HasMap && !hm)) {
@@ -568,6 +594,11 @@ func TestVX_C15(t *testing.T) {
 		d := depth
 		if cfg.Kind == "cmd" && !mc.Thorough() {
 			d = 2
+		}
+		alpha := alpha
+		if cfg.Kind != "cmd" {
+			// starts during which one read of the PWM file fails (the 1st..4th read after the controller started)
+			alpha = append(append([]string{}, alpha...), "start-flaky1", "start-flaky2", "start-flaky3", "start-flaky4")
 		}
 		st := mc.BFS(rep, mc.BFSOpts{NSym: len(alpha), MaxDepth: d, Deadline: mc.Deadline(80*time.Second, 13*time.Minute)}, func(path []int) (string, []mc.Violation) {
 			ops := make([]string, len(path))
